@@ -212,6 +212,8 @@ class Extractor {
         S = I->getSubExpr();
       } else if (const auto *SE = dyn_cast<SubstNonTypeTemplateParmExpr>(S)) {
         S = SE->getReplacement();
+      } else if (const auto *RB = dyn_cast<CXXRewrittenBinaryOperator>(S)) {
+        S = RB->getSemanticForm();     // C++20: a != b rewritten as !(a == b), a < b as (a <=> b) < 0, reversed operands
       } else if (const auto *IC = dyn_cast<ImplicitCastExpr>(S)) {
         switch (IC->getCastKind()) {
           case CK_NoOp:
@@ -281,7 +283,15 @@ class Extractor {
       return true;
     }
     Expr::EvalResult R;
-    if (E->HasSideEffects(Ctx)) return false;
+    if (E->HasSideEffects(Ctx)) {
+      // a call of a constexpr function with constant arguments is a constant (HasSideEffects is conservative for calls)
+      const auto *CE = dyn_cast<CallExpr>(E->IgnoreParenImpCasts());
+      const FunctionDecl *Callee = CE ? CE->getDirectCallee() : nullptr;
+      if (!Callee || !Callee->isConstexpr() || isa<CXXMethodDecl>(Callee)) return false;
+      if (!E->EvaluateAsInt(R, Ctx, Expr::SE_NoSideEffects) || R.HasSideEffects) return false;
+      O["cv"] = apToString(R.Val.getInt());
+      return true;
+    }
     if (!E->EvaluateAsInt(R, Ctx, Expr::SE_NoSideEffects)) return false;
     O["cv"] = apToString(R.Val.getInt());
     return true;
@@ -757,6 +767,18 @@ class Extractor {
           Succs.push_back(nullptr);
       }
       BJ["succs"] = std::move(Succs);
+      if (const Stmt *Lbl = B->getLabel()) {
+        // case / default labels: the switch terminator of the predecessor selects by these values
+        if (const auto *CS = dyn_cast<CaseStmt>(Lbl)) {
+          Expr::EvalResult R;
+          if (CS->getLHS() && !CS->getLHS()->isValueDependent() && CS->getLHS()->EvaluateAsInt(R, Ctx) && !CS->getRHS())
+            BJ["case"] = apToString(R.Val.getInt());
+          else
+            BJ["case"] = "?";
+        } else if (isa<DefaultStmt>(Lbl)) {
+          BJ["default"] = true;
+        }
+      }
       if (B->hasNoReturnElement()) BJ["noreturn"] = true;
       Blocks.push_back(std::move(BJ));
     }
